@@ -262,6 +262,12 @@ def c09(rng, count):
         if z: extra.append("-z")
         if "--json" in extra and "-r" in extra: extra = [e for e in extra if e not in ("-r", "/")]
         data = _uniform_input(rng, mode, n, delim, eol)
+        if mode == "l" and n > 1 and rng.random() < 0.08:
+            # "every input": one line that is not valid UTF-8 (the line count stays n)
+            ls = data.split(eol)
+            k = rng.randrange(n)
+            ls[k] = rng.choice([b"\xff", b"a\xc3", b"\xe2\x82"])
+            data = eol.join(ls)
         for role, bb in (("orig", bs), ("mirrored", bs2)):
             argv = ["-" + mode, ",".join(_render(b) for b in bb)] + extra
             out.append(Case(argv, data, tags={"grp": g, "role": role, "n": n}))
